@@ -4,6 +4,9 @@
 -/
 import WowVerif.Model.Dispatch04
 import WowVerif.Model.Dispatch17
+import WowVerif.Model.Dispatch18
+import WowVerif.Model.Dispatch18b
+import WowVerif.Model.Dispatch18c
 
 open Wv Wv.Drv
 
@@ -12,7 +15,7 @@ structure St where
 
 def step (st : St) (line : String) : St × String :=
   let toks := (line.trimAscii.toString.splitOn " ").filter (· ≠ "")
-  match (c04 toks).orElse (fun _ => c17 toks) with
+  match ((((c04 toks).orElse (fun _ => c17 toks)).orElse (fun _ => c18 toks)).orElse (fun _ => c18b toks)).orElse (fun _ => c18c toks) with
   | some r => (st, r)
   | none => (st, "bad-op")
 
